@@ -39,6 +39,7 @@ from typing import Any, ClassVar, NamedTuple, Optional, TypedDict
 
 from harness import core
 from harness.core import Ctx, Driver, InfraError
+from harness.props import c17_defaults
 
 ID = "C17"
 CLAIM = {
@@ -1854,6 +1855,8 @@ def run(ctx: Ctx):
               max_pairs=ctx.budget(8, 30))
     # ~4.5 ms per generated converter: quick ≈ 2 600 converters, thorough ≈ 10 000
     run_convert_sub(ctx, real, drv, twins[:ctx.budget(len(twins), 600)], n_variants=2, n_src_kinds=2)
+    # container-valued defaults in every spelling a kind offers (value / factory), real code only
+    c17_defaults.value_default_suite(ctx, ctx.budget(72, 1440))
     ctx.extra["documented_limitations"] = {tag: documented(tag) for tag in DOC_ANCHORS}
     ctx.extra["exhaustive"] = False
 
@@ -1887,6 +1890,8 @@ def search(ctx: Ctx):
         if not ctx.failures:
             run_convert_sub(ctx, real, None, more, 2, 2)
     if not ctx.failures:
+        c17_defaults.value_default_suite(ctx, 1440, stop_on_failure=True)
+    if not ctx.failures:
         # rich declarations: a shape the model does not predict is not a violation by itself; look for an
         # observable difference by loading/dumping a dataclass twin of the same field list
         for d in ctx.disagreements[:50]:
@@ -1905,6 +1910,8 @@ def replay(ctx: Ctx, case) -> bool:
     real = RealSide()
     before = len(ctx.failures)
     suite = case.get("suite")
+    if suite == "value-defaults":
+        return c17_defaults.replay(ctx, case)
     if suite == "shape-canonical":
         tw = Twin(case["model"])
         kind = case["kind"]
